@@ -14,7 +14,7 @@ VERIF = os.path.dirname(os.path.dirname(os.path.abspath(__file__)))
 def one(sid):
     d = os.path.join(VERIF, "seeded", sid)
     meta = json.load(open(os.path.join(d, "meta.json")))
-    checks = meta["caught_by_quick_checks"][:1]
+    checks = meta["caught_by_quick_checks"][:1] or [meta["property"]]
     t0 = time.time()
     r = subprocess.run([os.path.join(VERIF, "tools", "seedcheck.py"), d, *checks], capture_output=True, text=True)
     try:
@@ -45,7 +45,7 @@ def main():
             head = subprocess.run(["git", "-C", VERIF, "rev-parse", "--short", "HEAD"], capture_output=True, text=True).stdout.strip()
             json.dump({"verif_commit_when_run": head, "results": dict(sorted(results.items()))}, open(path, "w"), indent=1)
     missed = [s for s, r in results.items() if not any(v == 1 for v in r["checks"].values())]
-    print("not caught:", missed)
+    print("not caught by the quick tier:", missed)
 
 
 if __name__ == "__main__":
